@@ -508,7 +508,7 @@ def g_rejected_block(chk, P, D, sk):
                 continue
             n += 1
             pv = env.get(f'v{pid}->pcm')
-            if not (isinstance(pv, V) and pv.nn is False):
+            if not (isinstance(pv, V) and (pv.nn is False or pv.const() == 0)):
                 bad.append(e)
         chk.require(n > 0, f'{fn}: no failing return after the arena reset')
         chk.ob(RULE, fn, 'rejected-packet-leaves-no-stale-block', not bad, F.where(bad[0]) if bad else F.where(),
